@@ -1,0 +1,19 @@
+//go:build verif
+
+package parser
+
+// Contracts for the deductive checker in /verif (comment-only file; adds no code).
+//
+// on_parser_qualif (C05): the qualifier carries the associativity that was written and
+// the decimal value of the level that was written; anything that is not a positive
+// decimal int is diagnosed and leaves the level unset.
+//
+//@ func parser.on_parser_qualif
+//@   requires !isnil(p) && !isnil(p.errs)
+//@   requires assoc.Type == LEFT || assoc.Type == RIGHT
+//@   ensures !isnil(result) && fresh(result)
+//@   ensures assoc.Type == LEFT ==> result.Associativity == ast.Left
+//@   ensures assoc.Type == RIGHT ==> result.Associativity == ast.Right
+//@   ensures strconv.decOK(string(prec.Str)) && strconv.decVal(string(prec.Str)) > 0 ==> result.Precedence == strconv.decVal(string(prec.Str)) && p.errs.hasErrors == old(p.errs.hasErrors)
+//@   ensures !(strconv.decOK(string(prec.Str)) && strconv.decVal(string(prec.Str)) > 0) ==> p.errs.hasErrors && result.Precedence == 0
+//@   modifies p.errs.hasErrors
